@@ -2409,7 +2409,14 @@ class NameCheckVisitor(node_visitor.ReplacingNodeVisitor):
             chain.from_iterable(scope.usage_to_definition_nodes.values())
         )
         all_unused_nodes = all_def_nodes - all_used_def_nodes
-        for unused in all_unused_nodes:
+        # Report in source order; the iteration order of a set of nodes is arbitrary.
+        for unused in sorted(
+            all_unused_nodes,
+            key=lambda node: (
+                getattr(node, "lineno", 0),
+                getattr(node, "col_offset", 0),
+            ),
+        ):
             # Ignore names not defined through a Name node (e.g., function arguments)
             if not isinstance(unused, ast.Name) or not self._is_write_ctx(unused.ctx):
                 continue
